@@ -26,7 +26,10 @@ class Receiver:
                 body = self.rfile.read(n)
                 with outer.lock:
                     outer.docs.append(body)
-                self.send_response(200); self.send_header("content-length", "0"); self.end_headers()
+                # (receivers commonly acknowledge with a small document; a sender that never reads it must still deliver the next event)
+                ack = b'{"status":"received"}'
+                self.send_response(200); self.send_header("content-type", "application/json"); self.send_header("content-length", str(len(ack))); self.end_headers()
+                self.wfile.write(ack)
             def log_message(self, *a): pass
         self.srv = http.server.ThreadingHTTPServer(("127.0.0.1", 0), H)
         self.srv.daemon_threads = True
@@ -62,6 +65,8 @@ def plan(rnd, tid, nreq, buckets):
     for i in range(nreq):
         bk = rnd.choice(buckets); key = "t%d/k%d-%s" % (tid, i, rnd.choice(["a", "b c", "ü", "x+y"])); x = rnd.random()
         size = rnd.choice([0, 1, 17, 1000, 70000])
+        if x < 0.30 and rnd.random() < 0.2:
+            key, size = "t%d/dirobj%d/" % (tid, i), 0        # an explicit directory object: its key ends with the slash
         if x < 0.30: out.append({"op": "put", "bucket": bk, "key": key, "size": size}); mine.append((bk, key, size))
         elif x < 0.40 and mine: s = rnd.choice(mine); out.append({"op": "copy", "bucket": bk, "key": key, "src": s})
         elif x < 0.48: out.append({"op": "mpu", "bucket": bk, "key": key, "size": max(size, 17)})
